@@ -49,6 +49,9 @@ theorem of_map_left (f : β → α) (bs : List β) (hR : ∀ b, R (f b) b) : For
   | nil => exact .nil
   | cons b bs ih => exact .cons (hR b) ih
 
+theorem isEmpty_eq {as : List α} {bs : List β} (h : Forall2 R as bs) : as.isEmpty = bs.isEmpty := by
+  cases h <;> rfl
+
 theorem eq_of_eq {as bs : List α} (h : Forall2 (fun a b => a = b) as bs) : as = bs := by
   induction h with
   | nil => rfl
@@ -147,14 +150,29 @@ theorem simEnv_single {F : List Feature} {o : Source} {cols : List String} (r : 
 theorem elemsAll_append (F G : List Feature) (el : Elem) : el ∈ elemsAll (F ++ G) ↔ el ∈ elemsAll F ∨ el ∈ elemsAll G := by
   simp [elemsAll, List.flatMap_append]
 
-/-- **Restricting every scan to the offered columns does not change what an inner-join statement yields**, provided
+/-- **Restricting every scan to the offered columns does not change what a statement yields** (any join kind), provided
 the query post-processing only looks at the elements the query mentions. -/
+theorem shaped_of_wellScoped : ∀ (s : Source), wellScoped s = true → shaped s = true
+  | .table _ _, _ => rfl
+  | .ref i _, h => by
+    simp only [wellScoped, Bool.and_eq_true] at h
+    simp [shaped, h.1, shaped_of_wellScoped i h.2]
+  | .join l r _ _, h => by
+    simp only [wellScoped, Bool.and_eq_true] at h
+    simp [shaped, shaped_of_wellScoped l h.1, shaped_of_wellScoped r h.2]
+  | .set l r _, h => by
+    simp only [wellScoped, Bool.and_eq_true] at h
+    simp [shaped, h.1.1.1, h.1.1.2, shaped_of_wellScoped l h.1.2, shaped_of_wellScoped r h.2]
+  | .query src _ _ _ _ _ _, h => by
+    simp only [wellScoped, Bool.and_eq_true] at h
+    simpa [shaped] using shaped_of_wellScoped src h.2
+
 theorem run_proj (len : Bool) (S : Sem) (B : Backend) (db : Db) (hS : FinishLocal S) :
-    ∀ (s : Source), innerOnly s = true → wellScoped s = true →
+    ∀ (s : Source), shaped s = true →
       (∀ (F : List Feature) (st : Segs), Covers st F →
           Forall2 (SimEnv F) (run len S B.proj db s st).envs (run len S B db s st).envs)
       ∧ (isStmt s = true → ∀ st, (run len S B.proj db s st).envs = (run len S B db s st).envs)
-  | .table n fs, _, _ => by
+  | .table n fs, _ => by
     refine ⟨?_, by simp [isStmt]⟩
     intro F st hc
     simp only [run, Backend.proj, List.map_map]
@@ -163,11 +181,10 @@ theorem run_proj (len : Bool) (S : Sem) (B : Backend) (db : Db) (hS : FinishLoca
     exact mem_hint_cols (by
       have := hc el hel (by simp [ho, inst, isTable])
       simpa [ho, inst] using this)
-  | .ref i nm, hi, hw => by
+  | .ref i nm, hw => by
     refine ⟨?_, by simp [isStmt]⟩
     intro F st hc
-    simp only [innerOnly] at hi
-    simp only [wellScoped, Bool.and_eq_true, Bool.or_eq_true] at hw
+    simp only [shaped, Bool.and_eq_true, Bool.or_eq_true] at hw
     rcases hw.1 with ht | hs
     · cases i with
       | table n fs =>
@@ -180,56 +197,96 @@ theorem run_proj (len : Bool) (S : Sem) (B : Backend) (db : Db) (hS : FinishLoca
           simpa [ho, inst] using this)
       | _ => simp [isTable] at ht
     · simp only [run]
-      rw [(run_proj len S B db hS i hi hw.2).2 hs st]
+      rw [(run_proj len S B db hS i hw.2).2 hs st]
       exact Forall2.refl' (SimEnv.refl F) _
-  | .join l r k c, hi, hw => by
+  | .join l r k c, hw => by
     refine ⟨?_, by simp [isStmt]⟩
     intro F st hc
-    simp only [innerOnly, Bool.and_eq_true, Bool.or_eq_true, beq_iff_eq] at hi
-    simp only [wellScoped, Bool.and_eq_true] at hw
+    simp only [shaped, Bool.and_eq_true] at hw
     have hc1 : Covers (st.filterOpt len c) (F ++ optList c) :=
       covers_append (covers_mono hc (filterOpt_mono len st c)) (covers_filterOpt len st c)
-    have iha := (run_proj len S B db hS l hi.1.2 hw.1).1 _ _ hc1
+    have iha := (run_proj len S B db hS l hw.1).1 _ _ hc1
     have hst : (run len S B.proj db l (st.filterOpt len c)).st = (run len S B db l (st.filterOpt len c)).st :=
       (run_indep len S S B.proj B db db l _).1
     have hc2 : Covers (run len S B db l (st.filterOpt len c)).st (F ++ optList c) :=
       covers_mono hc1 (run_cols len S B db l (F ++ optList c) _ hc1).2
-    have ihb := (run_proj len S B db hS r hi.2 hw.2).1 _ _ hc2
+    have ihb := (run_proj len S B db hS r hw.2).1 _ _ hc2
     simp only [run]
     rw [hst]
-    have hprod : Forall2 (SimEnv (F ++ optList c))
-        (prod (run len S B.proj db l (st.filterOpt len c)).envs
-          (run len S B.proj db r (run len S B db l (st.filterOpt len c)).st).envs)
-        (prod (run len S B db l (st.filterOpt len c)).envs
-          (run len S B db r (run len S B db l (st.filterOpt len c)).st).envs) := by
-      unfold prod
-      exact iha.flatMap _ _ (fun el' el hl => ihb.map _ _ (fun er' er hr => hl.append hr))
-    have hfil := hprod.filter (fun e => holdsOpt S e c) (fun e => holdsOpt S e c) (by
+    -- the ON condition evaluates alike on related environments
+    have hon : ∀ e' e, SimEnv (F ++ optList c) e' e → holdsOpt S e' c = holdsOpt S e c := by
       intro e' e he
       cases c with
       | none => rfl
       | some c =>
         simp only [holdsOpt]
-        exact he.holds S (fun el hel => (elemsAll_append _ _ _).mpr (Or.inr (by simpa [elemsAll, optList] using hel))))
-    have hres := hfil.mono (fun e' e he => he.mono (fun el hel => (elemsAll_append _ _ _).mpr (Or.inl hel)))
-    rcases hi.1.1 with rfl | rfl <;> simpa [joinRows] using hres
-  | .set l r k, hi, hw => by
-    simp only [innerOnly, Bool.and_eq_true] at hi
-    simp only [wellScoped, Bool.and_eq_true] at hw
+        exact he.holds S (fun el hel => (elemsAll_append _ _ _).mpr (Or.inr (by simpa [elemsAll, optList] using hel)))
+    have hweak : ∀ {as bs : List Env}, Forall2 (SimEnv (F ++ optList c)) as bs → Forall2 (SimEnv F) as bs :=
+      fun h => h.mono (fun e' e he => he.mono (fun el hel => (elemsAll_append _ _ _).mpr (Or.inl hel)))
+    -- matches of one left / one right row
+    have hml : ∀ el' el, SimEnv (F ++ optList c) el' el → Forall2 (SimEnv (F ++ optList c))
+        ((List.map (fun er => el' ++ er) (run len S B.proj db r (run len S B db l (st.filterOpt len c)).st).envs).filter
+          (fun e => holdsOpt S e c))
+        ((List.map (fun er => el ++ er) (run len S B db r (run len S B db l (st.filterOpt len c)).st).envs).filter
+          (fun e => holdsOpt S e c)) :=
+      fun el' el hl => (ihb.map _ _ (fun er' er hr => hl.append hr)).filter _ _ hon
+    have hmr : ∀ er' er, SimEnv (F ++ optList c) er' er → Forall2 (SimEnv (F ++ optList c))
+        ((List.map (fun el => el ++ er') (run len S B.proj db l (st.filterOpt len c)).envs).filter (fun e => holdsOpt S e c))
+        ((List.map (fun el => el ++ er) (run len S B db l (st.filterOpt len c)).envs).filter (fun e => holdsOpt S e c)) :=
+      fun er' er hr => (iha.map _ _ (fun el' el hl => hl.append hr)).filter _ _ hon
+    have leftPart := iha.flatMap
+      (fun el' => if ((List.map (fun er => el' ++ er) (run len S B.proj db r (run len S B db l (st.filterOpt len c)).st).envs).filter
+          (fun e => holdsOpt S e c)).isEmpty then [el' ++ nullEnv (origins r)]
+        else (List.map (fun er => el' ++ er) (run len S B.proj db r (run len S B db l (st.filterOpt len c)).st).envs).filter
+          (fun e => holdsOpt S e c))
+      (fun el => if ((List.map (fun er => el ++ er) (run len S B db r (run len S B db l (st.filterOpt len c)).st).envs).filter
+          (fun e => holdsOpt S e c)).isEmpty then [el ++ nullEnv (origins r)]
+        else (List.map (fun er => el ++ er) (run len S B db r (run len S B db l (st.filterOpt len c)).st).envs).filter
+          (fun e => holdsOpt S e c))
+      (R' := SimEnv (F ++ optList c)) (fun el' el hl => by
+        have hm := hml el' el hl
+        rw [hm.isEmpty_eq]
+        split
+        · exact .cons (hl.append (SimEnv.refl _ _)) .nil
+        · exact hm)
+    cases k with
+    | inner =>
+      simp only [joinRows, prod]
+      exact hweak ((iha.flatMap _ _ (fun el' el hl => ihb.map _ _ (fun er' er hr => hl.append hr))).filter _ _ hon)
+    | cross =>
+      simp only [joinRows, prod]
+      exact hweak ((iha.flatMap _ _ (fun el' el hl => ihb.map _ _ (fun er' er hr => hl.append hr))).filter _ _ hon)
+    | left =>
+      simp only [joinRows]
+      exact hweak leftPart
+    | right =>
+      simp only [joinRows]
+      refine hweak (ihb.flatMap _ _ (fun er' er hr => ?_))
+      have hm := hmr er' er hr
+      rw [hm.isEmpty_eq]
+      split
+      · exact .cons ((SimEnv.refl _ _).append hr) .nil
+      · exact hm
+    | full =>
+      simp only [joinRows]
+      refine hweak (leftPart.append ?_)
+      refine (ihb.filter _ _ (fun er' er hr => ?_)).map _ _ (fun er' er hr => (SimEnv.refl _ _).append hr)
+      rw [(hmr er' er hr).isEmpty_eq]
+  | .set l r k, hw => by
+    simp only [shaped, Bool.and_eq_true] at hw
     have heq : ∀ st, (run len S B.proj db (.set l r k) st).envs = (run len S B db (.set l r k) st).envs := by
       intro st
       simp only [run]
-      rw [(run_proj len S B db hS l hi.1 hw.1.2).2 hw.1.1.1 st, (run_indep len S S B.proj B db db l st).1,
-        (run_proj len S B db hS r hi.2 hw.2).2 hw.1.1.2 _]
+      rw [(run_proj len S B db hS l hw.1.2).2 hw.1.1.1 st, (run_indep len S S B.proj B db db l st).1,
+        (run_proj len S B db hS r hw.2).2 hw.1.1.2 _]
     exact ⟨fun F st _ => heq st ▸ Forall2.refl' (SimEnv.refl F) _, fun _ => heq⟩
-  | .query src sel pre grp post ord rows, hi, hw => by
-    simp only [innerOnly] at hi
-    simp only [wellScoped, Bool.and_eq_true, decide_eq_true_eq] at hw
+  | .query src sel pre grp post ord rows, hw => by
+    simp only [shaped] at hw
     have heq : ∀ st, (run len S B.proj db (.query src sel pre grp post ord rows) st).envs =
         (run len S B db (.query src sel pre grp post ord rows) st).envs := by
       intro st
       simp only [run]
-      have hp := (run_proj len S B db hS src hi hw.2).1 (queryFeatures src sel pre grp post ord)
+      have hp := (run_proj len S B db hS src hw).1 (queryFeatures src sel pre grp post ord)
         (queryCtx len st.err src sel pre grp post ord) (covers_queryCtx len st.err src sel pre grp post ord)
       have hk := hp.filter (fun e => holdsOpt S e pre) (fun e => holdsOpt S e pre) (by
         intro e' e he
